@@ -5,7 +5,8 @@
 // prefix law for every k, every function marked `violates` breaks it for some k.
 //
 // (The cases of the third statement audit were validated the same way; drawsites_cases_owntry.rs is a
-// second input, scanned as a source tree of its own.)
+// second input, scanned as a source tree of its own; drawsites_cases_audit4.rs, the fourth audit's
+// cases, a third one, with a validation program that can be re-run: drawsites_validate_audit4.rs.)
 //
 // `// expect:` lists the expected kind of every call site of the following function, in source
 // order (a `macro_rules!` item with call sites outside any fn carries one too). Kinds q, tail, ret,
